@@ -1,5 +1,6 @@
 ------------------------------ MODULE Trace_C02 ------------------------------
-(* C02, the two clauses that are about the host's memory rather than outcomes: *)
+(* C02, the clauses that are about the host's memory and process rather than outcomes ("process": the settings of the  *)
+(* interpreter that later evaluations - of any parser - depend on are what they were before):                           *)
 (*  "host"    a value supplied by the host (variable value, cell/range setter   *)
 (*            value, custom-function result) is the same after the evaluation   *)
 (*            as before: [kind, formula, before, after] (deep snapshots)        *)
@@ -19,6 +20,7 @@ NoRetention(o) == Bounded(o.series) /\ Bounded(o.blocks)
 
 Verdict(o) ==
   CASE o.kind = "host" -> IF HostUnchanged(o) THEN <<"ok">> ELSE <<"bad", "host_value_mutated">>
+    [] o.kind = "process" -> IF o.settings_before = o.settings_after THEN <<"ok">> ELSE <<"bad", "interpreter_setting_changed">>
     [] o.kind = "census" -> IF NoRetention(o) THEN <<"ok">> ELSE <<"bad", "retention_grows_with_evaluations">>
 Inv == PrintT(<<"V", O.id>> \o Verdict(O))
 =============================================================================
